@@ -1,4 +1,6 @@
 from __future__ import annotations
+
+import re
 from abc import abstractmethod
 import typing
 from typing import Tuple
@@ -565,6 +567,14 @@ class InlineCode(Expression):
 #
 
 
+def _is_valid_identifier(name: str) -> bool:
+    # basic identifier: letters, digits and single underscores, starts with a letter
+    return (
+        re.fullmatch(r"[A-Za-z][A-Za-z0-9]*(_[A-Za-z0-9]+)*", name, re.ASCII)
+        is not None
+    )
+
+
 class VhdlScope:
     class _VectorSliceHint:
         """
@@ -595,6 +605,8 @@ class VhdlScope:
         self._subscopes: list[VhdlScope] = []
         self._declarations: IdMap[typing.Any, VhdlScope.Declaration] = IdMap()
         self._used_names: set[str] = set()
+        # names of enumeration literals (overloadable, may be shared by multiple enum types)
+        self._enumerator_names: set[str] = set()
 
         if parent is not None:
             parent._subscopes.append(self)
@@ -686,6 +698,7 @@ class VhdlScope:
                 used_names = set(self._used_names)
         else:
             used_names = set(self._parent._used_names) | self._used_names
+            self._enumerator_names |= self._parent._enumerator_names
 
         for id, decl in self._declarations.items():
             if decl.active:
@@ -771,8 +784,38 @@ class VhdlScope:
 
                 name = base_name + str(cnt)
 
+            assert _is_valid_identifier(
+                name
+            ), f"'{name}' is not a valid VHDL identifier"
+
+            if isinstance(obj, Port):
+                # ports are part of the entity interface and cannot be renamed
+                assert (
+                    name == obj.name()
+                ), f"invalid port name '{obj.name()}' (reserved, already used or not a valid VHDL identifier)"
+
             decl.name = name
             used_names.add(name.lower())
+
+            if isinstance(obj, type) and issubclass(
+                obj, (cohdl_enum.Enum, cohdl_enum.DynamicEnum)
+            ):
+                # the enumeration literals are declared together with the type
+                if issubclass(obj, cohdl_enum.Enum):
+                    enumerators = list(obj.__members__.keys())
+                else:
+                    enumerators = [member.name for member in obj.__members__]
+
+                for enumerator in enumerators:
+                    assert _is_valid_identifier(
+                        enumerator
+                    ), f"enumerator '{enumerator}' is not a valid VHDL identifier"
+                    assert (
+                        enumerator.lower() not in used_names
+                        or enumerator.lower() in self._enumerator_names
+                    ), f"name of enumerator '{enumerator}' of '{name}' is reserved or already in use"
+                    used_names.add(enumerator.lower())
+                    self._enumerator_names.add(enumerator.lower())
 
         self._used_names = used_names
         self._setup_complete = True
